@@ -29,8 +29,10 @@ def build_world(rng, w, n_states=1, calls_per_action=2, noise=True, name="dom", 
         # one more object per parameter of the focus action, so that calls with pairwise different arguments exist
         objs = objs + [("ox%d" % i, t) for i, (_, t) in enumerate(focus[0]["params"])]
     if hints:
-        # every quantified type of the shape has an object; every parameter of the focus action has a candidate
+        # every quantified type of the shape has an object - except a type the shape wants empty;
+        # every parameter of the focus action has a candidate
         objs = objs + [("oq%d" % i, t) for i, t in enumerate(hints.get("need_types", []))]
+        objs = [(o, t) for o, t in objs if not any(w.is_sub(t, e) for e in hints.get("empty_types", []))]
         for i, (_, t) in enumerate(focus[0]["params"]):
             if not isinstance(t, list) and not any(w.is_sub(ot, t) for _, ot in objs + list(w.consts)):
                 objs = objs + [("op%d" % i, t)]
@@ -43,8 +45,8 @@ def build_world(rng, w, n_states=1, calls_per_action=2, noise=True, name="dom", 
         st = C.hinted_state(rng, w, objs, hints, k) if hints else G.gen_state(rng, w, objs)
         ptxt = G.problem_text(w, objs, st, domain=name)
         for a in w.actions:
-            if hints and k > 0 and a["name"] != hints["focus"]:
-                continue          # the other actions of a shaped world are probed on the first state only
+            if hints and a["name"] != hints["focus"]:
+                continue          # a shaped world is probed on the action that carries the shape
             nwhen, nuniv = count_groups(a) if isinstance(a["eff"], list) and a["eff"] and a["eff"][0] == "and" else (0, 0)
             limit = calls_per_action
             if hints and a["name"] == hints["focus"]:
@@ -72,8 +74,31 @@ VOCAB_KINDS = {"either-pred", "trailing-untyped-constants", "grouped-function-pa
 
 
 def cworld_literal(wd, res, eps):
-    lit, u = world_literal(wd, res, eps)
-    return "{| cw := %s; cw_action := %s |}" % (lit, cstr(wd.get("oof_action") or "")), u
+    """the Coq literal of a world (Corr.C01.cworld).  Same fields as core_common.world_literal; a probe state that several
+    probes share is bound once with 'let' (Coq spends most of a shard's time reading the literals)."""
+    if "vocab" not in res or not wd["probes"]:
+        lit, u = world_literal(wd, res, eps)
+        return "{| cw := %s; cw_action := %s |}" % (lit, cstr(wd.get("oof_action") or "")), u
+    from ..common import cbool, chex, clist
+    from ..core_common import cobs_bool, cobs_state, cstate, nat_list
+    nums = clist(["(%s, %s)" % (cstr(k), chex(float.fromhex(v))) for k, v in sorted(res["nums"].items())])
+    objs = clist(["(%s, %s)" % (cstr(n), cstr(t)) for n, t in wd["objects"]])
+    names, lets, probes = {}, [], []
+    for pr, r in zip(wd["probes"], res["probes"]):
+        key = id(pr["state"])
+        if key not in names:
+            names[key] = "st%d" % len(names)
+            lets.append("let %s := %s in" % (names[key], cstate(pr["state"])))
+        if "problem_raised" in r:
+            app, succ = "Raised", "Raised"
+        else:
+            app, succ = cobs_bool(r["app"]), cobs_state(r["succ"])
+        ng = r.get("ngroups", 1 + pr.get("nwhen", 0))
+        probes.append("{| p_action := %s; p_args := %s; p_state := %s; p_app := %s; p_order := %s; p_uorder := %s; p_succ := %s |}" % (
+            cstr(pr["action"]), clist([cstr(a) for a in pr["args"]]), names[key], app, nat_list(ng), nat_list(pr.get("nuniv", 0)), succ))
+    lit = "{| w_text := %s; w_nums := %s; w_eps := %s; w_objs := %s; w_oof := %s; w_parsed := (Returned %s); w_probes := %s |}" % (
+        cstr(wd["domain_text"]), nums, chex(float.fromhex(eps)), objs, cbool(wd["oof"]), cstr(res["vocab"]), clist(probes))
+    return "(%s {| cw := %s; cw_action := %s |})" % (" ".join(lets), lit, cstr(wd.get("oof_action") or "")), 1 + 2 * len(probes)
 
 
 def clean_replays():
@@ -96,17 +121,37 @@ def corpus_worlds():
     return out
 
 
-def fixture_worlds():
-    out = []
+def fixture_worlds(tier="thorough", seed=0):
+    """every domain file the repository ships, once per distinct content (the copies under other test directories are
+    named in 'same_as').  quick: the files up to 10 kB and one of the larger ones (a different one per seed)."""
+    import hashlib
+    out, by_hash = [], {}
     for path in C.shipped_domain_files(str(REPO)):
         try:
             text = open(path, "r", encoding="utf-8", errors="replace").read()
         except OSError:
             continue
         text = "".join(ch if ord(ch) < 256 else "?" for ch in text)
-        out.append({"domain_text": text, "objects": [], "oof": True, "oof_kind": None, "probes": [],
-                    "features": ["fixture"], "tree": None, "source": "fixture:" + os.path.relpath(path, str(REPO))})
+        rel = os.path.relpath(path, str(REPO))
+        h = hashlib.sha1(text.encode("latin-1")).hexdigest()
+        if h in by_hash:
+            by_hash[h]["same_as"].append(rel)
+            continue
+        wd = {"domain_text": text, "objects": [], "oof": True, "oof_kind": None, "probes": [],
+              "features": ["fixture"], "tree": None, "source": "fixture:" + rel, "same_as": []}
+        by_hash[h] = wd
+        out.append(wd)
+    if tier == "quick":
+        big = [wd for wd in out if len(wd["domain_text"]) > 10000]
+        keep = big[seed % len(big)] if big else None
+        out = [wd for wd in out if len(wd["domain_text"]) <= 10000 or wd is keep]
     return out
+
+
+def text_only_literal(wd, res, eps):
+    """the world without its probes (for questions about the text alone, e.g. membership in G)"""
+    lit, _ = world_literal(dict(wd, probes=[]), {k: v for k, v in res.items() if k != "probes"}, eps)
+    return "{| cw := %s; cw_action := %s |}" % (lit, cstr(""))
 
 
 def generate(rng, tier):
@@ -128,7 +173,12 @@ def generate(rng, tier):
                 done += 1
         planted[kind] = done
     shaped = {}
-    for key in C.SHAPES:
+    keys = list(C.SHAPES)
+    if tier == "quick":
+        # every shape whose second sibling differs in a far decimal; of the others one in three, a different third per seed
+        pick = rng.randrange(3)
+        keys = [k for i, k in enumerate(keys) if "far" in k or i % 3 == pick]
+    for key in keys:
         done, tries = 0, 0
         while done < per_shape and tries < 50:
             tries += 1
@@ -159,7 +209,7 @@ def run(args):
             wd.setdefault("source", "replay")
     else:
         gen, planted, shaped = generate(rng, args.tier)
-        worlds = corpus_worlds() + gen + fixture_worlds()
+        worlds = corpus_worlds() + gen + fixture_worlds(args.tier, args.seed)
     cfg = run_impl([{"op": "core.numeric_config"}], nproc=1)[0]
     hashseeds = [0] if args.tier == "quick" else [0, 1]
     all_cases, all_verdicts, info_total = [], "", {"shards": 0, "shard_errors": [], "cmd": ""}
@@ -174,8 +224,8 @@ def run(args):
             lit, u = cworld_literal(wd, res, cfg["epsilon"])
             lits.append(lit)
             units.append(u)
-        verdicts, info = run_case_shards(PROP, CORR, lits, shard_size=6, units=units, header_extra=HEADER,
-                                         max_bytes=100_000)
+        verdicts, info = run_case_shards(PROP, CORR, lits, shard_size=12, units=units, header_extra=HEADER,
+                                         max_bytes=120_000)
         info_total["shards"] += info["shards"]
         info_total["shard_errors"] += info["shard_errors"]
         info_total["cmd"] = info["cmd"]
@@ -195,14 +245,18 @@ def run(args):
                               "witness_of": wd.get("witness_of")})
             all_verdicts += ch
         if hs == hashseeds[0]:
-            # how many generated in-fragment texts (a sample) and shipped files the decidable fragment G contains
+            # how many generated in-fragment texts (a sample) and - thorough tier - shipped files the decidable fragment G
+            # contains (reporting only: 'in G => accepted' is part of every world's verdict)
             import re as _re
-            for label, idx in (("generated_in_fragment_sample", [i for i, wd in enumerate(worlds) if wd["source"] == "generated" and not wd["oof"]][:40]),
-                               ("shipped_files", [i for i, wd in enumerate(worlds) if wd["source"].startswith("fixture")])):
+            gen_idx = [i for i, wd in enumerate(worlds) if wd["source"] == "generated" and not wd["oof"]]
+            groups = [("generated_in_fragment_sample", gen_idx[:20] + gen_idx[-20:] if len(gen_idx) > 40 else gen_idx)]
+            if args.tier != "quick":
+                groups.append(("shipped_files", [i for i, wd in enumerate(worlds) if wd["source"].startswith("fixture")]))
+            for label, idx in groups:
                 if not idx:
                     continue
-                out = coq_eval(PROP, CORR, "count_in_G [%s]" % ";\n".join(lits[i] for i in idx), name="count_in_G_" + label,
-                               header_extra=HEADER)
+                out = coq_eval(PROP, CORR, "count_in_G [%s]" % ";\n".join(text_only_literal(worlds[i], results[i], cfg["epsilon"]) for i in idx),
+                               name="count_in_G_" + label, header_extra=HEADER)
                 m = _re.search(r"=\s*(\d+)\s*:\s*nat", out)
                 stats.setdefault("in_G", {})[label] = {"in_G": int(m.group(1)) if m else None, "of": len(idx)}
             for wd, res in zip(worlds, results):
@@ -215,7 +269,8 @@ def run(args):
                     C.census(wd["tree"], stats["productions"])
                 raised = "vocab" not in res
                 if wd["source"].startswith("fixture"):
-                    stats["fixtures"][wd["source"][8:]] = ("raised " + res["parse_raised"]["raised"]) if raised else "parsed"
+                    for rel in [wd["source"][8:]] + wd.get("same_as", []):
+                        stats["fixtures"][rel] = ("raised " + res["parse_raised"]["raised"]) if raised else "parsed"
                 if wd.get("oof_kind"):
                     o = stats["oof_outcomes"].setdefault(wd["oof_kind"], {"parse-raised": 0, "use-raised": 0, "returned": 0, "not-probed": 0})
                     if raised:
